@@ -46,6 +46,9 @@ type Prog struct {
 	lowered  map[token.Pos]bool
 	gconst   map[globalCell]*ssa.Const
 	gdirty   map[*ssa.Global]bool
+	gnonnil  map[*ssa.Global]bool // set once, by the package initialiser, to something that is not nil (a sentinel error)
+	gstores  map[*ssa.Global]int
+	gescape  map[*ssa.Global]bool
 	norm     *normInfo // set when the program analysed is the normalised copy (helpers outside the vocabulary expanded)
 }
 
@@ -844,6 +847,7 @@ func globalConst(v ssa.Value) (*ssa.Const, bool) {
 	if P.gconst == nil {
 		P.gconst = map[globalCell]*ssa.Const{}
 		P.gdirty = map[*ssa.Global]bool{}
+		P.gnonnil, P.gstores, P.gescape = map[*ssa.Global]bool{}, map[*ssa.Global]int{}, map[*ssa.Global]bool{}
 		var cellOf func(a ssa.Value) (globalCell, bool)
 		cellOf = func(a ssa.Value) (globalCell, bool) {
 			switch x := a.(type) {
@@ -877,8 +881,15 @@ func globalConst(v ssa.Value) (*ssa.Const, bool) {
 						// the address of the variable (or of a part of it) stored somewhere: it may be written through it
 						if c2, ok2 := cellOf(x.Val); ok2 {
 							P.gdirty[c2.g] = true
+							P.gescape[c2.g] = true
 						}
 						return
+					}
+					if c.path == "" {
+						P.gstores[c.g]++
+						if isInit && (nilState{}).of(x.Val) == 2 {
+							P.gnonnil[c.g] = true
+						}
 					}
 					k, isC := x.Val.(*ssa.Const)
 					if !isInit || !isC {
@@ -893,6 +904,7 @@ func globalConst(v ssa.Value) (*ssa.Const, bool) {
 					for _, a := range x.Common().Args {
 						if c, ok := cellOf(a); ok {
 							P.gdirty[c.g] = true
+							P.gescape[c.g] = true
 						}
 					}
 				}
@@ -971,4 +983,20 @@ func globalConst(v ssa.Value) (*ssa.Const, bool) {
 	}
 	k, ok := P.gconst[c]
 	return k, ok
+}
+
+// globalNeverNil: v reads a package-level variable that the package initialiser sets once to something that is not nil
+// (a sentinel error made by errors.New) and that nothing else writes or takes the address of.
+func globalNeverNil(v ssa.Value) bool {
+	u, ok := v.(*ssa.UnOp)
+	if !ok || u.Op != token.MUL || curProg == nil {
+		return false
+	}
+	g, ok := u.X.(*ssa.Global)
+	if !ok {
+		return false
+	}
+	globalConst(v) // builds the tables
+	P := curProg
+	return P.gnonnil[g] && P.gstores[g] == 1 && !P.gescape[g]
 }
